@@ -1,7 +1,7 @@
 (* Bridge (property C20): what was re-read from components/guns/grpc/**.go (Gen/GrpcDialGen.v) is what
    the wire model (Model/GrpcWire.v) assumes about the source. *)
 From Coq Require Import List NArith Bool.
-From PV Require Import Model.GrpcCall Model.GrpcWire Gen.GrpcDialGen.
+From PV Require Import Model.GrpcCall Model.GrpcWire Model.GrpcTime Gen.GrpcDialGen.
 Import ListNotations.
 
 (* every dial option of MakeGRPCConnect is one that does not touch calls, so the connection policy
@@ -23,3 +23,14 @@ Proof. split; vm_compute; reflexivity. Qed.
    entry's call from ammo.Metadata, that of a scenario step from the rendered copy — nothing else *)
 Lemma outgoing_md_sources : gen_outgoing_md = model_outgoing_md.
 Proof. reflexivity. Qed.
+
+(* WHERE the deadline of a call is created (Model/GrpcTime.v): every context.WithTimeout of the two guns
+   starts from context.Background() with the configured `timeout`, one in each function that calls
+   InvokeRpc (Gun.shoot, Gun.shootStep) and the dial timeout of MakeGRPCConnect — so every call,
+   every scenario step included, gets the whole timeout from the moment it is issued (PerCall) *)
+Lemma timeout_sites : gen_timeout_sites = model_timeout_sites.
+Proof. reflexivity. Qed.
+
+Lemma deadline_is_per_call :
+  deadline_scope gen_timeout_sites (map fst gen_invoke_call_options) = Some PerCall.
+Proof. vm_compute. reflexivity. Qed.
